@@ -1,0 +1,6 @@
+// +build !verif
+
+package logging
+
+// verifCrit is a no-op outside verification builds (see crit_verif.go).
+func verifCrit(msg string, ctx []interface{}) {}
